@@ -95,6 +95,15 @@ PROPS = {
                 "non-trivial = list of >= 2 seeds or literal >= 30 bytes; for unpack: array whose first byte is a valid kind",
         "assumptions": COMMON_ASSUME,
     },
+    "C12": {
+        "lean_module": "SplProofs.C12",
+        "streams": ["C12"],
+        "rule": "stream metalist: histories of init / update / read over 1..3 instruction discriminators (adversarial tag palette), list lengths 0..7, buffers of the advertised size -1 / exact / +slack, "
+                "arbitrary 35-byte configs, malformed starting bytes, init of an existing list, update of a missing list, update of a list that sits before another one; after every op the raw buffer is "
+                "compared with the model, every known list is read back and compared, and failed ops must leave the bytes identical; non-trivial = >= 2 discriminators in one account or an update that changes "
+                "the list length",
+        "assumptions": COMMON_ASSUME + ["lists have fewer than 2^26 configs"],
+    },
     "C13": {
         "lean_module": "SplProofs.C13",
         "streams": ["C13"],
